@@ -3,7 +3,7 @@ Require Import Base Node Did Command CommandProofs SelParse Policy PolicyIpld Po
 Local Open Scope N_scope.
 
 Lemma in53_int64 z : in53 z = true -> in_int64 z = true.
-Proof. unfold in53, in_int64, max53. rewrite !andb_true_iff, !Z.leb_le. lia. Qed.
+Proof. unfold in53, in_int64, max53, src_max_int53. rewrite !andb_true_iff, !Z.leb_le. lia. Qed.
 
 Lemma opt_timestamp_ok z : opt_in53 z -> opt_timestamp z = Ok z.
 Proof. destruct z as [s|]; cbn; [intros ->; reflexivity|reflexivity]. Qed.
